@@ -10,7 +10,9 @@ import (
 	"os/exec"
 	"path/filepath"
 	"sort"
+	"strconv"
 	"strings"
+	"sync"
 
 	"verif/checker/core"
 )
@@ -74,7 +76,87 @@ type benignMeta struct {
 	What       string   `json:"what"`
 }
 
-func runBenign(prop *core.Property, seed int, baseSet map[string]bool, rep *core.SelfTestReport) {
+type oblig struct {
+	Verdict string `json:"verdict"`
+	Rule    string `json:"rule"`
+	Config  string `json:"config"`
+	Key     string `json:"key"`
+}
+
+func okey(o oblig) string { return o.Rule + "\x00" + o.Key + "\x00" + o.Verdict }
+
+// analyse applies patch to a scratch copy of /repo and runs this binary on the copy (a process of its own, so that
+// several copies can be analysed at the same time). applied is false when the patch does not apply.
+func analyse(prop, tier, rule, patch string) (obs []oblig, applied bool, note string) {
+	dir, err := os.MkdirTemp("", "verif-scratch-")
+	if err != nil {
+		return nil, false, "tmp dir: " + err.Error()
+	}
+	defer os.RemoveAll(dir)
+	if out, err := exec.Command("rsync", "-a", "--exclude=.git", "--exclude=benchmarks", "/repo/", dir+"/").CombinedOutput(); err != nil {
+		return nil, false, fmt.Sprintf("copy failed: %v %s", err, out)
+	}
+	ap := exec.Command("patch", "-p1", "-s", "--no-backup-if-mismatch", "-i", patch)
+	ap.Dir = dir
+	if out, err := ap.CombinedOutput(); err != nil {
+		return nil, false, "patch does not apply to the current tree: " + strings.TrimSpace(string(out))
+	}
+	args := []string{"-property", prop, "-tier", tier, "-obligations"}
+	if rule != "" {
+		args = append(args, "-rule", rule)
+	}
+	cmd := exec.Command(os.Args[0], args...)
+	cmd.Env = append(os.Environ(), "VERIF_REPO="+dir)
+	out, err := cmd.Output()
+	if err != nil {
+		return nil, true, "analyser failed on the patched copy: " + err.Error()
+	}
+	for _, l := range strings.Split(string(out), "\n") {
+		if l == "" {
+			continue
+		}
+		var o oblig
+		if json.Unmarshal([]byte(l), &o) == nil {
+			obs = append(obs, o)
+		}
+	}
+	return obs, true, ""
+}
+
+func jobs() int {
+	if n, err := strconv.Atoi(os.Getenv("VERIF_JOBS")); err == nil && n > 0 {
+		return n
+	}
+	return 8
+}
+
+// Run applies each mutant and each benign edit to a scratch copy of /repo's working tree, analyses the copy, and
+// compares with the analysis of /repo itself.
+func Run(prop *core.Property, seed int) *core.SelfTestReport {
+	muts := collect(prop.ID)
+	rep := &core.SelfTestReport{}
+	if seed != 0 && len(muts) > 0 {
+		k := seed % len(muts)
+		if k < 0 {
+			k = -k
+		}
+		muts = append(muts[k:], muts[:k]...)
+	}
+	core.NoReplay = true
+	base := core.RunProperty(prop, "thorough", seed, "")
+	core.NoReplay = false
+	baseSet := map[string]bool{}
+	for _, o := range base.Obligations {
+		baseSet[o.Rule+"\x00"+o.Key+"\x00"+o.Verdict] = true
+	}
+	type job struct {
+		benign bool
+		name   string
+		patch  string
+		meta   Meta
+		what   string
+	}
+	var work []job
 	files, _ := filepath.Glob(filepath.Join(core.VerifDir(), "benign", "*.diff"))
 	sort.Strings(files)
 	for _, f := range files {
@@ -88,150 +170,114 @@ func runBenign(prop *core.Property, seed int, baseSet map[string]bool, rep *core
 				applies = true
 			}
 		}
-		if !applies {
-			continue
+		if applies {
+			work = append(work, job{benign: true, name: "benign/" + filepath.Base(f), patch: f, what: m.What})
 		}
-		name := "benign/" + filepath.Base(f)
-		dir, err := os.MkdirTemp("", "verif-benign-")
-		if err != nil {
-			continue
-		}
-		func() {
-			defer os.RemoveAll(dir)
-			if out, err := exec.Command("rsync", "-a", "--exclude=.git", "--exclude=benchmarks", "/repo/", dir+"/").CombinedOutput(); err != nil {
-				rep.Names = append(rep.Names, fmt.Sprintf("%s: skipped (copy failed: %v %s)", name, err, out))
-				return
-			}
-			ap := exec.Command("patch", "-p1", "-s", "--no-backup-if-mismatch", "-i", f)
-			ap.Dir = dir
-			if out, err := ap.CombinedOutput(); err != nil {
-				rep.Names = append(rep.Names, fmt.Sprintf("%s: skipped (patch does not apply to the current tree: %s)", name, strings.TrimSpace(string(out))))
-				return
-			}
-			os.Setenv("VERIF_REPO", dir)
-			res := core.RunProperty(prop, "quick", seed, "")
-			os.Unsetenv("VERIF_REPO")
-			core.DropProgramsFor(dir)
-			rep.BenignRun++
-			var alarms []string
-			for _, o := range res.Obligations {
-				if (o.Verdict == core.Violation || o.Verdict == core.Undecided) && !baseSet[key(o)] {
-					alarms = append(alarms, o.Rule+" "+o.Key+" ("+o.Verdict+")")
+	}
+	for _, m := range muts {
+		work = append(work, job{name: m.name, patch: m.patch, meta: m.meta})
+	}
+	type outcome struct {
+		obs     []oblig
+		applied bool
+		note    string
+	}
+	results := make([]outcome, len(work))
+	sem := make(chan struct{}, jobs())
+	var wg sync.WaitGroup
+	for i, j := range work {
+		wg.Add(1)
+		sem <- struct{}{}
+		go func(i int, j job) {
+			defer wg.Done()
+			defer func() { <-sem }()
+			tier, rule := "quick", ""
+			if !j.benign {
+				rule = j.meta.ExpectRule
+				if j.meta.Tier == "thorough" {
+					tier = "thorough"
 				}
 			}
-			if len(alarms) == 0 {
+			obs, applied, note := analyse(prop.ID, tier, rule, j.patch)
+			results[i] = outcome{obs, applied, note}
+		}(i, j)
+	}
+	wg.Wait()
+	for i, j := range work {
+		r := results[i]
+		if !r.applied || r.note != "" {
+			if !j.benign {
+				rep.Skipped++
+			}
+			rep.Names = append(rep.Names, j.name+": skipped ("+r.note+")")
+			continue
+		}
+		loaderFail := false
+		var fresh []oblig
+		for _, o := range r.obs {
+			if o.Key == "loader" {
+				loaderFail = true
+			}
+			if (o.Verdict == core.Violation || o.Verdict == core.Undecided) && !baseSet[okey(o)] {
+				fresh = append(fresh, o)
+			}
+		}
+		if j.benign {
+			rep.BenignRun++
+			if len(fresh) == 0 {
 				rep.BenignSilent++
-				rep.Names = append(rep.Names, name+": silent, as it must be ("+m.What+")")
-				return
+				rep.Names = append(rep.Names, j.name+": silent, as it must be ("+j.what+")")
+				continue
+			}
+			var alarms []string
+			for _, o := range fresh {
+				alarms = append(alarms, o.Rule+" "+o.Key+" ("+o.Verdict+")")
 			}
 			if len(alarms) > 4 {
 				alarms = append(alarms[:4], fmt.Sprintf("… %d more", len(alarms)-4))
 			}
-			rep.BenignAlarms = append(rep.BenignAlarms, name+": "+strings.Join(alarms, "; "))
-			rep.Names = append(rep.Names, name+": FALSE ALARM "+strings.Join(alarms, "; "))
-		}()
-	}
-}
-
-func key(o core.Obligation) string { return o.Rule + "\x00" + o.Key + "\x00" + o.Verdict }
-
-// Run applies each mutant of the property to a scratch copy of /repo's working
-// tree, analyses the copy, and compares with the analysis of /repo itself.
-func Run(prop *core.Property, seed int) *core.SelfTestReport {
-	muts := collect(prop.ID)
-	rep := &core.SelfTestReport{}
-	if seed != 0 && len(muts) > 0 {
-		k := seed % len(muts)
-		if k < 0 {
-			k = -k
-		}
-		muts = append(muts[k:], muts[:k]...)
-	}
-	core.NoReplay = true
-	defer func() { core.NoReplay = false; os.Unsetenv("VERIF_REPO") }()
-	os.Unsetenv("VERIF_REPO")
-	base := core.RunProperty(prop, "thorough", seed, "")
-	baseSet := map[string]bool{}
-	for _, o := range base.Obligations {
-		baseSet[key(o)] = true
-	}
-	runBenign(prop, seed, baseSet, rep)
-	for _, m := range muts {
-		dir, err := os.MkdirTemp("", "verif-mut-")
-		if err != nil {
-			rep.Skipped++
-			rep.Names = append(rep.Names, m.name+": skipped (tmp dir)")
+			rep.BenignAlarms = append(rep.BenignAlarms, j.name+": "+strings.Join(alarms, "; "))
+			rep.Names = append(rep.Names, j.name+": FALSE ALARM "+strings.Join(alarms, "; "))
 			continue
 		}
-		func() {
-			defer os.RemoveAll(dir)
-			cp := exec.Command("rsync", "-a", "--exclude=.git", "--exclude=benchmarks", "/repo/", dir+"/")
-			if out, err := cp.CombinedOutput(); err != nil {
-				rep.Skipped++
-				rep.Names = append(rep.Names, fmt.Sprintf("%s: skipped (copy failed: %v %s)", m.name, err, out))
-				return
-			}
-			ap := exec.Command("patch", "-p1", "-s", "--no-backup-if-mismatch", "-i", m.patch)
-			ap.Dir = dir
-			if out, err := ap.CombinedOutput(); err != nil {
-				rep.Skipped++
-				rep.Names = append(rep.Names, fmt.Sprintf("%s: skipped (patch does not apply to the current tree: %s)", m.name, strings.TrimSpace(string(out))))
-				return
-			}
-			os.Setenv("VERIF_REPO", dir)
-			tier := "quick"
-			if m.meta.Tier == "thorough" {
-				tier = "thorough"
-			}
-			res := core.RunProperty(prop, tier, seed, m.meta.ExpectRule)
-			os.Unsetenv("VERIF_REPO")
-			core.DropProgramsFor(dir)
-			rep.Run++
-			var hit []string
-			loaderFail := false
-			for _, o := range res.Obligations {
-				if o.Key == "loader" {
-					loaderFail = true
-				}
-				if (o.Verdict == core.Violation || o.Verdict == core.Undecided) && !baseSet[key(o)] {
-					if m.meta.ExpectKey == "" || strings.Contains(o.Key, m.meta.ExpectKey) {
-						hit = append(hit, o.Rule+" "+o.Key+" ("+o.Verdict+")")
-					}
+		if loaderFail {
+			rep.Skipped++
+			rep.Names = append(rep.Names, j.name+": skipped (mutant does not type-check)")
+			continue
+		}
+		rep.Run++
+		if j.meta.Clears != "" {
+			cleared := true
+			for _, o := range r.obs {
+				if strings.Contains(o.Key, j.meta.Clears) && o.Verdict != core.Discharged && o.Verdict != core.Observed {
+					cleared = false
 				}
 			}
-			if loaderFail {
-				rep.Run--
-				rep.Skipped++
-				rep.Names = append(rep.Names, m.name+": skipped (mutant does not type-check)")
-				return
-			}
-			if m.meta.Clears != "" {
-				cleared := true
-				for _, o := range res.Obligations {
-					if strings.Contains(o.Key, m.meta.Clears) && o.Verdict != core.Discharged && o.Verdict != core.Observed {
-						cleared = false
-					}
-				}
-				if cleared {
-					rep.Detected++
-					rep.Names = append(rep.Names, m.name+": detected (finding cleared: "+m.meta.Clears+")")
-				} else {
-					rep.Missed++
-					rep.Names = append(rep.Names, m.name+": MISSED (finding not cleared)")
-				}
-				return
-			}
-			if len(hit) > 0 {
+			if cleared {
 				rep.Detected++
-				if len(hit) > 3 {
-					hit = append(hit[:3], fmt.Sprintf("… %d more", len(hit)-3))
-				}
-				rep.Names = append(rep.Names, m.name+": detected by "+strings.Join(hit, "; "))
+				rep.Names = append(rep.Names, j.name+": detected (finding cleared: "+j.meta.Clears+")")
 			} else {
 				rep.Missed++
-				rep.Names = append(rep.Names, m.name+": MISSED (expected "+m.meta.ExpectRule+" "+m.meta.ExpectKey+")")
+				rep.Names = append(rep.Names, j.name+": MISSED (finding not cleared)")
 			}
-		}()
+			continue
+		}
+		var hit []string
+		for _, o := range fresh {
+			if j.meta.ExpectKey == "" || strings.Contains(o.Key, j.meta.ExpectKey) {
+				hit = append(hit, o.Rule+" "+o.Key+" ("+o.Verdict+")")
+			}
+		}
+		if len(hit) > 0 {
+			rep.Detected++
+			if len(hit) > 3 {
+				hit = append(hit[:3], fmt.Sprintf("… %d more", len(hit)-3))
+			}
+			rep.Names = append(rep.Names, j.name+": detected by "+strings.Join(hit, "; "))
+		} else {
+			rep.Missed++
+			rep.Names = append(rep.Names, j.name+": MISSED (expected "+j.meta.ExpectRule+" "+j.meta.ExpectKey+")")
+		}
 	}
 	return rep
 }
